@@ -29,9 +29,12 @@ GROUPS = {
     'P4/mmm': ['tetra', 'cubic'],
     'Pm-3m': ['cubic'],
     'Fm-3m': ['cubic'],
+    # hexagonal axes: the fractional rotation matrices are NOT orthogonal (inverse != transpose)
+    'P3': ['hex'], 'P-3m1': ['hex'], 'P6/mmm': ['hex'], 'P6_3/mmc': ['hex'],
 }
 LATS = dict(gem.LATTICES)
 LATS['tetra'] = [[6, 0, 0], [0, 6, 0], [0, 0, 9]]
+LATS['hex'] = [[6, 0, 0], [-3, 3 * 3 ** 0.5, 0], [0, 0, 8]]
 
 
 _SG: dict = {}
@@ -183,6 +186,34 @@ def _matches_aswas(case, coords, lat, line):
     return pts.shape == coords.shape and np.allclose(pts @ lat, coords, atol=1e-9)
 
 
+def check_large(out: Outcome, rng):
+    """many input positions (frames x atoms of a long trajectory): the count clause by brute force"""
+    lat = np.diag([6.0, 7.0, 8.0])
+    L = Lattice(lat)
+    n = int(rng.choice([50001, 73123, 120011]))
+    pos = rng.integers(0, 4096, size=(n, 3)) / 4096
+    site_f = np.array([63 / 64, 0.25, 0.5])
+    radius = 0.9
+    grp = space_group('P-1')
+    site = PeriodicSite('Li', site_f, L, label='s')
+    sa = ShapeAnalyzer(sites=[site], lattice=L, spacegroup=grp)
+    out.evaluations += 1
+    with warnings.catch_warnings():
+        warnings.simplefilter('ignore')
+        coords = np.array(sa.analyze_positions(pos, radius=radius)[0].coords)
+    want = 0
+    for o in grp.symmetry_ops:
+        d = pos - o.operate(site_f)
+        d -= np.round(d)
+        want += int((np.linalg.norm(d @ lat, axis=1) < radius).sum())
+    case = {'large': True, 'n_positions': n, 'group': 'P-1', 'lattice': lat.tolist(), 'site': site_f.tolist(), 'radius': radius}
+    if len(coords) != want:
+        out.fail('property', 'count-equals-pairs-in-radius', case, expected=want, observed=len(coords), note='large input')
+    elif len(coords) and np.linalg.norm(coords, axis=1).max() >= radius:
+        out.fail('property', 'points-within-radius', case, observed=float(np.linalg.norm(coords, axis=1).max()))
+    out.nontrivial.add(('large', n))
+
+
 def corpus():
     d = core.CORPUS / PID
     return [json.loads(p.read_text()) for p in sorted(d.glob('*.json'))] if d.exists() else []
@@ -195,11 +226,15 @@ def run(tier: str, seed: int, scale: int) -> Outcome:
         check_case(out, case, 'corpus')
     for _ in range((270 if tier == "quick" else 3600) * scale):
         check_case(out, gen_case(rng), 'random')
+    for _ in range(1 if tier == 'quick' else 5):
+        check_large(out, rng)
     return out
 
 
 def replay(case):
     out = Outcome()
+    if case.get('large'):
+        return True, 'large-input cases: re-run ./check C17 quick with the recorded seed'
     check_case(out, case, 'replay')
     fails = [f for f in out.failures if f.kind == 'property']
     text = '\n'.join(f'{f.clause}: expected {str(f.expected)[:300]} observed {str(f.observed)[:300]} {f.note}' for f in fails) or 'no failure'
